@@ -21,7 +21,12 @@ type Scenario struct {
 }
 
 func newDriver(sc *Scenario) *driver {
-	d := &driver{w: &world{nums: map[int]uint64{}}, cap: sc.Cap, max: sc.Max, maxErrs: sc.MaxErrs, clock: kit.NewClock(), tags: map[string]bool{}}
+	clock := kit.NewClock()
+	stg, _, err := kit.NewBackend("mem", clock)
+	if err != nil {
+		panic(err)
+	}
+	d := &driver{w: &world{stg: stg}, cap: sc.Cap, max: sc.Max, maxErrs: sc.MaxErrs, clock: clock, tags: map[string]bool{}}
 	d.newIncarnation()
 	d.settle()
 	return d
